@@ -96,9 +96,20 @@ def main():
     rng = random.Random(cfg["seed"])
     outdir, prefix = cfg["outdir"], cfg["prefix"]
     scales = cfg.get("scales", [10, 100])
+    # all format assignments (exhaustive up to 4096 per template) that have a qualifying index;
+    # a seeded sample of `per_template` of them, plus a few non-qualifying ones for the context tie
     problems = []
     for tpl in TEMPLATES:
-        for fm in S.format_choices(tpl, rng, cfg.get("fmt_cap", 6)):
+        a0 = S.parsed(tpl)
+        idx0 = sorted(set(a0.target.indexes) | set(a0.expression.index_participants().keys()))
+        allf = S.format_choices(tpl, rng, 4096)
+        qual = [fm for fm in allf if any(condition(a0, fm, k) for k in idx0)]
+        rng.shuffle(qual)
+        for fm in qual[: cfg.get("per_template", 4)]:
+            problems.append((tpl, fm))
+        rest = [fm for fm in allf if fm not in qual]
+        rng.shuffle(rest)
+        for fm in rest[:1]:
             problems.append((tpl, fm))
     rng.shuffle(problems)
     index = {"shards": [], "skipped": {}, "context_cases": []}
@@ -147,13 +158,22 @@ def main():
         names = list(prob.formats.keys())
         out_modes = "".join(m.character for m in prob.formats[names[0]].modes)
         for k in ks:
-            sizes = {i: rng.choice([2, 3]) for i in idx}
+            sizes = {i: rng.choice([3, 4]) for i in idx}
             ins = S.make_inputs(tpl, sizes, rng)
             if not ins:
                 continue
+            import itertools
             for n_, v in ins.items():
-                if not v["entries"] and v["dims"] and all(v["dims"]):
-                    v["entries"] = {tuple(0 for _ in v["dims"]): 1.0}
+                # mix of empty and non-empty leading slices: an empty row must cost nothing either
+                cells = list(itertools.product(*[range(d) for d in v["dims"]]))
+                ent = {c: rng.choice([1.0, 2.0, 3.0]) for c in cells if rng.random() < 0.45}
+                if v["dims"]:
+                    hole = rng.randrange(v["dims"][0])
+                    ent = {c: x for c, x in ent.items() if c[0] != hole}
+                if not ent and cells:
+                    c0 = rng.choice([c for c in cells if not v["dims"] or c[0] != hole] or cells)
+                    ent = {c0: 1.0}
+                v["entries"] = ent
             def tins(sz):
                 dims_in = S.input_dims(tpl, sz)
                 raws = {n: S.raw(S.build(fm[n], dims_in[n], ins[n]["entries"])) for n in ins}
